@@ -69,6 +69,22 @@ def check_date_fn(acc, y, m, d, mods, exp_wd=None):
             acc.mismatch("week_day.rs", "vs-stdlib", {"kind": "date", "y": y, "m": m, "d": d}, b, exp_wd)
 
 
+GETTERS = {"day_of_week": lambda o: int(o.day_of_week), "day_of_year": lambda o: o.day_of_year,
+           "week_of_year": lambda o: o.week_of_year, "week_of_month": lambda o: o.week_of_month,
+           "days_in_month": lambda o: o.days_in_month, "quarter": lambda o: o.quarter,
+           "is_leap_year": lambda o: o.is_leap_year(), "is_long_year": lambda o: o.is_long_year()}
+
+
+def _read_getters(o):
+    out = {}
+    for k, fn in GETTERS.items():
+        try:
+            out[k] = fn(o)
+        except Exception as e:  # noqa: BLE001
+            out[k] = f"raises {type(e).__name__}"
+    return out
+
+
 def check_getters(acc, y, m, d, mods, with_datetime=False):
     pendulum, py, rs = mods
     nd = dt_.date(y, m, d)
@@ -90,16 +106,7 @@ def check_getters(acc, y, m, d, mods, with_datetime=False):
         objs.append(("DateTime", pendulum.DateTime(y, m, d, 12, 30, tzinfo=pendulum.UTC)))
         objs.append(("DateTime.naive", pendulum.DateTime(y, m, d, 23, 59, 59, 999999)))
     for label, o in objs:
-        got = {
-            "day_of_week": int(o.day_of_week),
-            "day_of_year": o.day_of_year,
-            "week_of_year": o.week_of_year,
-            "week_of_month": o.week_of_month,
-            "days_in_month": o.days_in_month,
-            "quarter": o.quarter,
-            "is_leap_year": o.is_leap_year(),
-            "is_long_year": o.is_long_year(),
-        }
+        got = _read_getters(o)
         acc.c["evaluations"] += 8
         if got != exp:
             for k in exp:
@@ -119,9 +126,7 @@ def check_getters_obj(acc, o, case):
            "week_of_month": next(i for i, row in enumerate(mc) if d in row) + 1,
            "days_in_month": calendar.monthrange(y, m)[1], "quarter": (m + 2) // 3, "is_leap_year": calendar.isleap(y),
            "is_long_year": dt_.date(y, 12, 28).isocalendar()[1] == 53}
-    got = {"day_of_week": int(o.day_of_week), "day_of_year": o.day_of_year, "week_of_year": o.week_of_year,
-           "week_of_month": o.week_of_month, "days_in_month": o.days_in_month, "quarter": o.quarter,
-           "is_leap_year": o.is_leap_year(), "is_long_year": o.is_long_year()}
+    got = _read_getters(o)
     acc.c["evaluations"] += 8
     for k in exp:
         if got[k] != exp[k]:
